@@ -103,6 +103,11 @@ CHECKS = {
          "7,000 programs: for each of the 20 groups a non-normalised sum, a decoded point, a product and a scalar, plus suites and their random streams (crypto/rand and Go-code readers), a public polynomial, Schnorr and BLS public keys on all 5 pairing suites, a BDN and a CoSi mask; every unordered pair (incl. m,m) of 13-17 read-only methods (encode, print, compare on either side, clone, Data, operand of Add/Sub/Neg/Mul/Set into a private receiver, Pair/ValidatePairing, Verify, Eval/Check/Commit, stream draws, mask accessors). The binary is built with -race -tags generic,purego so that the field arithmetic of kilic, gnark, bn256/bn254 and bigmod is instrumented Go instead of assembly.",
          "Trusted: Go's race detector (limits: shadow-cell eviction, control flow depending on a racy read). Interleaving-dependent wrong results without a conflicting access pair are impossible; interleavings themselves are not enumerated in this tier.",
          "DESIGN.md §4 C20"),
+ "C11": ("model_checking",
+         "exhaustive enumeration of (configuration x single-party fault behaviour x delivery order of one phase at one honest node) on the real DistKeyGenerator objects (Pedersen: fresh, fast-sync, five resharing shapes; Rabin: per-message API), end-state oracle on the honest outputs",
+         "Pedersen n=3 (thorough 3,4), all t in [n/2+1,n]: 19 behaviours of one deviating party (absent per phase, invalid share to each victim then justified / unjustified / wrongly justified, wrong holder, out-of-range share index, commitments of length t+-1, wrong session id per phase, duplicate and conflicting bundles, false complaint against each dealer, success response in regular mode, unknown dealer, out-of-range justification, wrong constant term when resharing); bundles mutated, re-signed and filtered by VerifyPacketSignature as the Protocol driver does; for every honest node and phase EVERY permutation of the bundle slice: same emitted bundle and same final output. Rabin n=3: absent, invalid share (justified / unjustified), false complaint against each dealer, bad secret commitments; every order (<= 3 messages; reversal/rotation above) of each of the 5 broadcast waves at each honest node. Oracle: identical commitments and QUAL, shares on the polynomial, every t-subset reconstructs the key, key = sum of QUAL contributions (resharing: unchanged), disqualification rules, all-honest => all complete.",
+         "Trusted: seeded randomness; one deviating party; the goroutine-driven Protocol type itself is not scheduled (its per-packet verification and the handlers it calls are). One open known finding (Rabin: unjustified dealer stays in QUAL).",
+         "DESIGN.md §4 C11"),
 }
 
 NOT_YET = "check not built yet in this round (planned: see DESIGN.md §4)"
